@@ -15,6 +15,7 @@ REGISTRY = {
     'C02': ('contracts.propsets', 'C02'),
     'C03': ('contracts.propsets', 'C03'),
     'C04': ('contracts.propsets', 'C04'),
+    'C05': ('contracts.propsets', 'C05'),
     'C07': ('contracts.propsets', 'C07'),
     'C10': ('contracts.propsets', 'C10'),
     'C11': ('contracts.propsets', 'C11'),
